@@ -11,13 +11,13 @@ pub fn prop() -> Prop {
     Prop {
         id: "C08",
         level: "exploration",
-        rule: "case = (hasher/field instance among 12; E in {base, quadratic, cubic where supported}; bound+1 = 2^3..2^12 with domain <= 2^14 (2^17 thorough); blowup 2..128; folding 2/4/8/16; remainder degree 2^r-1 <= 255; configurations with degree truncation are excluded by construction and counted; polynomial degree in {zero, 0, 1, bound/2, bound-1, bound, random}; position multiset of size 1..64 with duplicates / all equal / one coset / extremes). Oracle: FriVerifier::new + verify = Ok on the prover's proof and again on FriProof::read_from(to_bytes) through DefaultVerifierChannel. Non-trivial = at least one FRI layer, or zero layers with remainder degree = bound; distinct = hash of (instance, parameters, polynomial seed, positions).",
+        rule: "case = (hasher/field instance among 12; E in {base, quadratic, cubic where supported}; bound+1 = 2^3..2^12 with domain <= 2^14 (2^17 thorough); blowup 2..128; folding 2/4/8/16; remainder degree 2^r-1 <= 255; configurations with degree truncation are excluded by construction and counted; polynomial degree in {zero, 0, 1, bound/2, bound-1, bound, random}; position multiset of size 1..64 with duplicates / all equal / one coset / extremes). Sub-check prover_reuse (model-based history): ONE FriProver (fixed options) builds 2-4 proofs in a row for domains that grow, shrink or repeat (the prover documents that build_proof clears its state so that another proof can be generated); every proof must verify and be byte-identical to the proof a fresh prover builds for the same input. Oracle: FriVerifier::new + verify = Ok on the prover's proof and again on FriProof::read_from(to_bytes) through DefaultVerifierChannel. Non-trivial = at least one FRI layer, or zero layers with remainder degree = bound; distinct = hash of (instance, parameters, polynomial seed, positions).",
         assumptions: vec![
             "FRI configurations for which some folded layer would have degree+1 not divisible by the folding factor are outside the supported set (the verifier documents DegreeTruncation as a deliberate rejection, the prover cannot build such layers)",
             "evaluations are produced with fft::evaluate_poly_with_offset (C12's subject) over the offset domain the FRI options document (GENERATOR)",
         ],
-        subs: vec![Sub::gen("honest", honest, 200, 30_000, 600_000)],
-        required: vec!["layers_ge_1", "zero_layers_remainder_eq_bound", "ext_2", "ext_3", "folding_2", "folding_4", "folding_8", "folding_16", "poly_zero", "poly_degree_eq_bound", "poly_lower_degree", "positions_with_duplicates", "remainder_degree_0", "remainder_degree_255", "hasher:Rp62_248", "hasher:RpJive64_256", "hasher:Blake3_192<f128>"],
+        subs: vec![Sub::gen("honest", honest, 200, 30_000, 600_000), Sub::gen("prover_reuse", reuse, 400, 4_000, 100_000)],
+        required: vec!["layers_ge_1", "zero_layers_remainder_eq_bound", "ext_2", "ext_3", "folding_2", "folding_4", "folding_8", "folding_16", "poly_zero", "poly_degree_eq_bound", "poly_lower_degree", "positions_with_duplicates", "remainder_degree_0", "remainder_degree_255", "hasher:Rp62_248", "hasher:RpJive64_256", "hasher:Blake3_192<f128>", "reuse:growing_domain", "reuse:shrinking_domain", "reuse:same_domain"],
         required_thorough: vec![],
     }
 }
@@ -80,5 +80,101 @@ fn run<X: HS, E: FieldElement<BaseField = <X::S as Spec>::B>>(s: &mut Src, rec: 
         }
     }
     rec.weight = 2;
+    Ok(())
+}
+
+
+// PROVER REUSE HISTORIES
+// ================================================================================================
+
+fn reuse(s: &mut Src, rec: &mut Rec) -> CaseResult {
+    let idx = s.below(NUM_HASHERS);
+    with_hasher!(idx, X, {
+        let cube = <<X as HS>::S as Spec>::CUBE.is_some();
+        match s.below(3) {
+            0 => run_reuse::<X, <<X as HS>::S as Spec>::B>(s, rec),
+            1 => run_reuse::<X, Q<<<X as HS>::S as Spec>::B>>(s, rec),
+            _ if cube => run_reuse::<X, C<<<X as HS>::S as Spec>::B>>(s, rec),
+            _ => run_reuse::<X, Q<<<X as HS>::S as Spec>::B>>(s, rec),
+        }
+    })
+}
+
+fn run_reuse<X: HS, E: FieldElement<BaseField = <X::S as Spec>::B>>(s: &mut Src, rec: &mut Rec) -> CaseResult {
+    use winter_utils::Serializable;
+    let name = X::NAME;
+    rec.class(&format!("hasher:{name}"));
+    let max_log = if X::is_rescue() { 9 } else { 11 };
+    let first = gen_params(s, max_log, rec);
+    let steps = s.range(2, 4) as usize;
+    // all steps share the FRI options; the bound (hence the domain) varies
+    let mut hist: Vec<Params> = vec![first.clone()];
+    for _ in 1..steps {
+        let mut q = first.clone();
+        for _attempt in 0..8 {
+            let lb = match s.below(4) {
+                0 => first.log_bound,
+                1 => first.log_bound + s.range(1, 3) as u32,
+                2 => first.log_bound.saturating_sub(s.range(1, 3) as u32).max(3),
+                _ => s.range(3, 11) as u32,
+            };
+            q.log_bound = lb.min(max_log - 1).max(3);
+            if (q.domain() as u64) <= (1u64 << max_log) * 4 && !q.truncates() && q.remainder_len() * E::ELEMENT_BYTES <= u16::MAX as usize {
+                break;
+            }
+            q.log_bound = first.log_bound;
+        }
+        hist.push(q);
+    }
+    if first.remainder_len() * E::ELEMENT_BYTES > u16::MAX as usize {
+        return Ok(()); // recorded C08 finding (u16 remainder length) is the subject of the `honest` sub-check
+    }
+    for w in hist.windows(2) {
+        rec.class(match w[1].domain().cmp(&w[0].domain()) {
+            std::cmp::Ordering::Greater => "reuse:growing_domain",
+            std::cmp::Ordering::Less => "reuse:shrinking_domain",
+            std::cmp::Ordering::Equal => "reuse:same_domain",
+        });
+    }
+    rec.nontrivial = hist.windows(2).any(|w| w[1].domain() != w[0].domain());
+    let mut inputs = vec![];
+    for q in &hist {
+        let (coeffs, degree) = gen_poly::<X::S, E>(s, q.bound(), rec);
+        let positions = gen_positions(s, q.domain(), rec);
+        inputs.push((evaluate::<X::S, E>(&coeffs, q.blowup), positions, degree));
+    }
+    let domains: Vec<usize> = hist.iter().map(|q| q.domain()).collect();
+    rec.set_fp(&(name, E::EXTENSION_DEGREE, first.blowup, first.folding, first.rem_max_degree, &domains, s.consumed()));
+    rec.describe(|| json!({"instance": name, "extension_degree": E::EXTENSION_DEGREE, "blowup": first.blowup, "folding": first.folding, "remainder_max_degree": first.rem_max_degree, "domains_in_order": domains, "degrees": inputs.iter().map(|i| i.2).collect::<Vec<_>>()}));
+    let ctx = format!("{name}, E degree {}, blowup {}, folding {}, remainder max degree {}, one FriProver used for domains {:?}", E::EXTENSION_DEGREE, first.blowup, first.folding, first.rem_max_degree, domains);
+    // the history on ONE prover
+    let produced = catch(|| {
+        let mut prover = Prover::<X, E>::new(first.options());
+        let mut out = vec![];
+        for (q, (evals, positions, _)) in hist.iter().zip(inputs.iter()) {
+            let mut channel = PChannel::<X, E>::new(q.domain(), 1);
+            prover.build_layers(&mut channel, evals.clone());
+            let proof = prover.build_proof(positions);
+            out.push((proof, channel.layer_commitments().to_vec()));
+        }
+        out
+    });
+    let produced = match produced {
+        Ok(v) => v,
+        Err(pn) => return Err(Fail::new(format!("reused-prover-{}", pn.key()), format!("a reused FRI prover panicked ({ctx}): {} at {}", pn.message, pn.location))),
+    };
+    for (k, ((proof, commitments), (q, (evals, positions, _)))) in produced.into_iter().zip(hist.iter().zip(inputs.iter())).enumerate() {
+        let fresh = match prove::<X, E>(q, evals, positions) {
+            Ok(h) => h,
+            Err(pn) => return Err(Fail::new(format!("prover-{}", pn.key()), format!("FRI prover panicked ({ctx}): {}", pn.message))),
+        };
+        let qv: Vec<E> = positions.iter().map(|i| evals[*i]).collect();
+        match verify::<X, E>(q, proof.clone(), &commitments, &qv, positions) {
+            Verdict::Accept => {},
+            other => return Err(Fail::new("reused-prover-proof-rejected", format!("proof #{k} (domain {}) built by a reused prover is not accepted: {other:?} ({ctx})", q.domain()))),
+        }
+        ensure!(proof.to_bytes() == fresh.proof.to_bytes() && commitments == fresh.commitments, "reused-prover-proof-differs", "proof #{k} (domain {}) built by a reused prover differs from the proof a fresh prover builds for the same input ({ctx})", q.domain());
+    }
+    rec.weight = steps as u64;
     Ok(())
 }
